@@ -74,13 +74,13 @@ def errBranch : Err → String
 
 /-- which key selected the response entry -/
 def selBranch (m : List (String × Resp)) (status : Int) : String :=
-  if (lookup (codeKey status) m).isSome then "sel.exact"
+  if (lookup (codeKey status) m).isSome then ""
   else if (match classKey status with | some k => (lookup k m).isSome | none => false) then "sel.class"
   else if (lookup "default" m).isSome then "sel.default" else "sel.none"
 
 def ctBranch (c : List (String × MediaType)) (mime : String) : String :=
   if mime = "" then "ct.empty"
-  else if (lookup mime c).isSome then (if mime = base mime then "ct.exact" else "ct.exact_params")
+  else if (lookup mime c).isSome then (if mime = base mime then "" else "ct.exact_params")
   else if (lookup (base mime) c).isSome then "ct.base"
   else match majorType (base mime) with
     | none => "ct.noslash"
@@ -120,7 +120,7 @@ def handle (j : Json) : Json :=
     (if i.method = "HEAD" then ["skip.head"] else []) ++
     (if skipStatus i.status then ["skip.status"] else []) ++
     (if !skipped && i.responses.isEmpty then ["map.empty"] else []) ++
-    (if !skipped && !i.responses.isEmpty then [selBranch i.responses i.status] else []) ++
+    (if !skipped && !i.responses.isEmpty then [selBranch i.responses i.status].filter (· ≠ "") else []) ++
     (if o.strict then ["opt.strict"] else []) ++
     (if o.multi then ["opt.multi"] else []) ++
     (match out.err with | some e => [errBranch e] | none => []) ++
@@ -136,7 +136,7 @@ def handle (j : Json) : Json :=
        (if (firstErr (checkHeader canon o.woOff i.hdrs) (checkedHeaders r)).isSome then [] else
          (if o.excludeBody then ["opt.exb"] else
           if r.content.isEmpty then ["content.empty"] else
-            [ctBranch r.content (ctOf i)] ++
+            [ctBranch r.content (ctOf i)].filter (· ≠ "") ++
             (match contentGet r.content (ctOf i) with
              | none => []
              | some mt => match mt.schema with
@@ -145,7 +145,6 @@ def handle (j : Json) : Json :=
                  (if o.woOff then ["opt.wooff"] else []) ++ (schFlags s).eraseDups ++
                  (match i.bodyDec with
                   | .val v =>
-                    (if visit ⟨true, o.woOff⟩ v s then ["body.ok"] else []) ++
                     (if visit ⟨true, o.woOff⟩ v s != visit ⟨false, o.woOff⟩ v s then ["body.asrep_matters"] else []) ++
                     (if visit ⟨true, true⟩ v s != visit ⟨true, false⟩ v s then ["body.wo_present"] else [])
                   | _ => [])))))
